@@ -13,6 +13,8 @@ over refs, (b) evaluated on plain data with the genuine Python operators,
   ('call', fname, args, kwargs)       f.<fname>(*args, **dict(kwargs))
   ('dyn', base_path, key_term)        base[<key>] with a computed key
   ('cmp', name, lhs, rhs)             deferred equality: lhs._eq(rhs) / _neq
+  ('ix', base_term, key)              item of an expression RESULT: (<base>)[key]   (computed owner)
+  ('at', base_term, name)             attribute of an expression result: (<base>).name
 """
 import math
 import operator
@@ -64,6 +66,9 @@ class Funcs:
 
     def hyp(self, x, y):
         return x * x + y * y
+
+    def pair(self, x):
+        return (x, x * 2)
 
     def size(self, c):
         return len(c)
@@ -155,6 +160,10 @@ def ev(t, roots):
     if k == "dyn":
         base = get_path(roots, t[1])
         return base[ev(t[2], roots)]
+    if k == "ix":
+        return ev(t[1], roots)[t[2]]
+    if k == "at":
+        return getattr(ev(t[1], roots), t[2])
     raise ValueError(f"bad term {t!r}")
 
 
@@ -192,6 +201,10 @@ def to_ref(t, rroots):
         return f(*args, **kwargs)
     if k == "dyn":
         return ref_of(rroots, t[1])[to_ref(t[2], rroots)]
+    if k == "ix":
+        return to_ref(t[1], rroots)[t[2]]
+    if k == "at":
+        return getattr(to_ref(t[1], rroots), t[2])
     raise ValueError(f"bad term {t!r}")
 
 
@@ -209,6 +222,8 @@ def has_ref(t):
         return has_ref(t[2]) or any(has_ref(p) for p in t[3])
     if k == "call":
         return True  # the callee f.<name> is itself a ref
+    if k in ("ix", "at"):
+        return has_ref(t[1])
     return False
 
 
@@ -240,6 +255,10 @@ def show(t):
         return f"f.{t[1]}({', '.join(args)})"
     if k == "dyn":
         return f"{path_str(t[1])}[{show(t[2])}]"
+    if k == "ix":
+        return f"{show(t[1])}[{t[2]!r}]"
+    if k == "at":
+        return f"{show(t[1])}.{t[2]}"
     raise ValueError(t)
 
 
@@ -268,6 +287,8 @@ def reads(t, out=None):
     elif k == "dyn":
         out.add(t[1])
         reads(t[2], out)
+    elif k in ("ix", "at"):
+        reads(t[1], out)
     return out
 
 
@@ -304,6 +325,9 @@ def deps(t, out=None):
         out |= closure(t[1])
         deps(t[2], out)
         out.add(("dyn", t[1], t[2]))
+    elif k in ("ix", "at"):
+        deps(t[1], out)
+        out.add((k, t[1], t[2]))     # the item/attribute ref over the computed owner is itself a reported dependency
     return out
 
 
